@@ -10,9 +10,14 @@ from r_poll import _parents, _ancestors
 CRATE = "mqtt_proto"
 
 
+def _is_async_fn(F, fid):
+    f = F.fns.get(fid)
+    return bool(f and f.get("is_async") and f["kind"] in ("Fn", "AssocFn"))
+
+
 def all_bodies(F):
     for fid, f in F.fns.items():
-        if f["kind"] == "Closure" and fid.endswith("::{closure#0}") and (F.fns.get(fid[:-len("::{closure#0}")]) or {}).get("is_async"):
+        if f["kind"] == "Closure" and fid.endswith("::{closure#0}") and _is_async_fn(F, fid[:-len("::{closure#0}")]):
             continue   # the coroutine body of an async fn is visited through the fn itself
         if f.get("thir") and f["kind"] in ("Fn", "AssocFn", "Closure"):
             b = nbody(F, fid) if f["kind"] != "Closure" else _closure_body(F, fid)
